@@ -559,6 +559,7 @@ type c16Flow struct {
 	pure      map[*kit.Func]bool            // same-package helpers evaluated inline
 	canon     map[types.Object]c16CanonLoop // counting loops over the buffer / leftover bytes, by counter
 	decodes   []c16Decode                   // decode calls whose count is bound to a variable
+	elemVars  map[types.Object]bool         // range value variables met so far: elements the atoms do not name
 }
 
 func (fl *c16Flow) intern(a kit.Affine) string {
@@ -737,6 +738,18 @@ func (fl *c16Flow) leftoverLen(s kit.S) (lo, hi int64, feasible bool) {
 func (fl *c16Flow) leafKnown(e ast.Expr, s kit.S) bool {
 	info := fl.rd.f.Info()
 	e = ast.Unparen(e)
+	// a test of a range value variable is a test of an element of what is ranged
+	// over; the atoms are stated over indices, so the decision is not interpreted
+	elem := false
+	ast.Inspect(e, func(n ast.Node) bool {
+		if id, ok := n.(*ast.Ident); ok && fl.elemVars[kit.ObjOf(info, id)] {
+			elem = true
+		}
+		return !elem
+	})
+	if elem {
+		return false
+	}
 	switch x := e.(type) {
 	case *ast.UnaryExpr:
 		if x.Op == token.NOT {
@@ -787,6 +800,30 @@ func (fl *c16Flow) leafKnown(e ast.Expr, s kit.S) bool {
 		}
 	}
 	return true
+}
+
+// usesLeftover: the body of h (or of a function of the package it calls)
+// selects the leftover field.
+func (fl *c16Flow) usesLeftover(h *kit.Func, depth int) bool {
+	if h == nil || h.Body == nil || h.Pkg != fl.rd.f.Pkg || depth > 3 {
+		return false
+	}
+	info := h.Info()
+	found := false
+	ast.Inspect(h.Body, func(n ast.Node) bool {
+		switch x := n.(type) {
+		case *ast.SelectorExpr:
+			if kit.ObjOf(info, x) == types.Object(fl.rd.lo) {
+				found = true
+			}
+		case *ast.CallExpr:
+			if g := h.CalleeFunc(x); g != nil && g != h && fl.usesLeftover(g, depth+1) {
+				found = true
+			}
+		}
+		return !found
+	})
+	return found
 }
 
 func (fl *c16Flow) provesLE(s kit.S, target kit.Affine, limit int64) bool {
@@ -1582,6 +1619,12 @@ func (fl *c16Flow) run() {
 			touches = true
 		}
 		if !touches {
+			// a function of this package that works on the leftover buffer itself
+			// (through the receiver) is not followed: what it served, moved or
+			// saved is unknown here
+			if h := f.CalleeFunc(call); h != nil && h != f && !fl.pureHelper(h) && fl.usesLeftover(h, 0) {
+				return []kit.S{s.Set("q:lounk", f.Str(call.Fun)+" at "+f.At(call)+" works on the leftover buffer")}
+			}
 			return nil
 		}
 		if fl.pureHelper(f.CalleeFunc(call)) {
@@ -1837,6 +1880,14 @@ func (fl *c16Flow) run() {
 		synthetic := fl.c.P.Parent(cur.File, br.Range) == nil // a canonical counting loop offered as a range
 		ts := s
 		ko := kit.ObjOf(info, br.Range.Key)
+		if br.Range.Value != nil {
+			if vo := kit.ObjOf(info, br.Range.Value); vo != nil && fl.rangeElem(vo) == nil {
+				if fl.elemVars == nil {
+					fl.elemVars = map[types.Object]bool{}
+				}
+				fl.elemVars[vo] = true
+			}
+		}
 		// what the loop runs over: a view of the caller's buffer or the leftover bytes
 		var n, lo kit.Affine
 		region, known := "", false
@@ -1893,6 +1944,9 @@ func (fl *c16Flow) run() {
 			}
 		}
 		if known {
+			if ko != nil && c16IntVar(ko) && !rd.unsafe[ko] {
+				ts = ts.Set("a:c:"+c16OpNames[token.GEQ]+":"+fl.intern(kit.AffVar(ko)), "T") // a range key is never negative
+			}
 			if ko != nil && c16IntVar(ko) && !rd.unsafe[ko] && len(n.Terms)+int(c16Abs(n.K)) > 0 {
 				ts = ts.Set("a:c:lt:"+fl.intern(kit.AffVar(ko).Sub(n)), "T")
 			}
@@ -2103,6 +2157,9 @@ func (fl *c16Flow) onStuckExit(r *ast.ReturnStmt, s kit.S, key string) {
 			site.add(c16V("undec", "%s: the leftover buffer is used in a way the rule does not model (%s)", f.Str(r), s.Get("q:lounk")))
 		case s.Get("q:unk") != "":
 			site.add(c16V("undec", "%s is reached without removal on a path that passed a decision the rule does not interpret (%s)", f.Str(r), s.Get("q:unk")))
+		case fl.inPackageCallers() != "":
+			// part of a split reader: the caller goes on after this exit
+			site.add(c16V("undec", "%s is reached without removal, but %s is called from %s: what follows this exit is decided there (a split reader is not followed across functions)", f.Str(r), f.Name, fl.inPackageCallers()))
 		default:
 			site.add(c16V("viol", "%s (at %s) is reachable after a terminated fragment was found in the leftover buffer, without reading the device and without removing anything from the leftover buffer: every later call finds the same fragment and returns the same way, no further frame is ever delivered", f.Str(r), f.At(r)))
 		}
@@ -2362,6 +2419,130 @@ func c16Resolve(f *kit.Func, e ast.Expr) ast.Expr {
 	return e
 }
 
+// c16Values lists the expressions assigned to the local variable named by id
+// (nothing for parameters, fields and variables that are never assigned).
+func c16Values(f *kit.Func, id *ast.Ident) []ast.Expr {
+	info := f.Info()
+	o, ok := kit.ObjOf(info, id).(*types.Var)
+	if !ok || o.IsField() {
+		return nil
+	}
+	var out []ast.Expr
+	ast.Inspect(f.Root().Body, func(x ast.Node) bool {
+		switch y := x.(type) {
+		case *ast.AssignStmt:
+			for i, l := range y.Lhs {
+				if kit.ObjOf(info, l) == types.Object(o) {
+					if len(y.Lhs) == len(y.Rhs) {
+						out = append(out, y.Rhs[i])
+					} else {
+						out = append(out, y.Rhs...)
+					}
+				}
+			}
+		case *ast.ValueSpec:
+			for _, nm := range y.Names {
+				if info.Defs[nm] == types.Object(o) {
+					out = append(out, y.Values...)
+				}
+			}
+		}
+		return true
+	})
+	return out
+}
+
+// c16GrownSlice recognises a local slice that is defined and then extended
+// once, by two statements of the same block with no use of it in between:
+//
+//	x := <first>
+//	x = append(x, rest...)
+//
+// It returns <first> and the append call (nil when e is not such a variable).
+func c16GrownSlice(f *kit.Func, e ast.Expr) (first ast.Expr, app *ast.CallExpr) {
+	info := f.Info()
+	id, ok := ast.Unparen(e).(*ast.Ident)
+	if !ok {
+		return nil, nil
+	}
+	o, ok := kit.ObjOf(info, id).(*types.Var)
+	if !ok || o.IsField() {
+		return nil, nil
+	}
+	mentions := func(n ast.Node) bool {
+		found := false
+		ast.Inspect(n, func(x ast.Node) bool {
+			if y, ok := x.(*ast.Ident); ok && kit.ObjOf(info, y) == types.Object(o) {
+				found = true
+			}
+			return !found
+		})
+		return found
+	}
+	assigns, addr := 0, false
+	ast.Inspect(f.Root().Body, func(x ast.Node) bool {
+		switch y := x.(type) {
+		case *ast.AssignStmt:
+			for _, l := range y.Lhs {
+				if kit.ObjOf(info, l) == types.Object(o) {
+					assigns++
+				}
+			}
+		case *ast.ValueSpec:
+			for _, nm := range y.Names {
+				if info.Defs[nm] == types.Object(o) {
+					assigns++
+				}
+			}
+		case *ast.UnaryExpr:
+			if y.Op == token.AND && kit.ObjOf(info, y.X) == types.Object(o) {
+				addr = true
+			}
+		case *ast.RangeStmt:
+			if (y.Key != nil && kit.ObjOf(info, y.Key) == types.Object(o)) || (y.Value != nil && kit.ObjOf(info, y.Value) == types.Object(o)) {
+				addr = true
+			}
+		}
+		return true
+	})
+	if assigns != 2 || addr {
+		return nil, nil
+	}
+	ast.Inspect(f.Root().Body, func(x ast.Node) bool {
+		blk, ok := x.(*ast.BlockStmt)
+		if !ok || app != nil {
+			return app == nil
+		}
+		for i, st := range blk.List {
+			def, ok := st.(*ast.AssignStmt)
+			if !ok || def.Tok != token.DEFINE || len(def.Lhs) != 1 || len(def.Rhs) != 1 || kit.ObjOf(info, def.Lhs[0]) != types.Object(o) {
+				continue
+			}
+			for _, later := range blk.List[i+1:] {
+				as, ok := later.(*ast.AssignStmt)
+				if !ok || as.Tok != token.ASSIGN || len(as.Lhs) != 1 || len(as.Rhs) != 1 || kit.ObjOf(info, as.Lhs[0]) != types.Object(o) {
+					if mentions(later) {
+						return false
+					}
+					continue
+				}
+				call, ok := ast.Unparen(as.Rhs[0]).(*ast.CallExpr)
+				if !ok || len(call.Args) != 2 || !call.Ellipsis.IsValid() || kit.ObjOf(info, call.Args[0]) != types.Object(o) || mentions(call.Args[1]) {
+					return false
+				}
+				if bi, isB := kit.Callee(info, call).(*types.Builtin); !isB || bi.Name() != "append" {
+					return false
+				}
+				first, app = def.Rhs[0], call
+				return false
+			}
+			return false
+		}
+		return true
+	})
+	return first, app
+}
+
 func c16JudgeWriter(c *kit.Ctx, f *kit.Func, o *kit.Ob, payload *types.Var, writes []*ast.CallExpr, qEncode string) {
 	info := f.Info()
 	isEncodeOfPayload := func(e ast.Expr) (string, string) { // verdict kind, message
@@ -2393,6 +2574,15 @@ func c16JudgeWriter(c *kit.Ctx, f *kit.Func, o *kit.Ob, payload *types.Var, writ
 		e = ast.Unparen(c16Resolve(f, e))
 		if kit.IsNilIdent(info, e) {
 			return true, true
+		}
+		// make([]byte, n[, cap]) holds n zero bytes
+		if mk, isCall := e.(*ast.CallExpr); isCall && len(mk.Args) >= 2 {
+			if bi, isB := kit.Callee(info, mk).(*types.Builtin); isB && bi.Name() == "make" && c16IsByteSlice(info.TypeOf(mk)) {
+				if _, isC := kit.ConstInt(info, mk.Args[1]); isC {
+					return true, true
+				}
+			}
+			return false, false
 		}
 		cl, ok := e.(*ast.CompositeLit)
 		if !ok || !c16IsByteSlice(info.TypeOf(cl)) {
@@ -2431,6 +2621,10 @@ func c16JudgeWriter(c *kit.Ctx, f *kit.Func, o *kit.Ob, payload *types.Var, writ
 				}
 			}
 		}
+		// x := <zeros>; x = append(x, rest...): the same list as append(<zeros>, rest...)
+		if zeros, app := c16GrownSlice(f, e); app != nil {
+			call, ok = &ast.CallExpr{Fun: app.Fun, Lparen: app.Lparen, Args: []ast.Expr{zeros, app.Args[1]}, Ellipsis: app.Ellipsis, Rparen: app.Rparen}, true
+		}
 		if ok {
 			if bi, isB := kit.Callee(info, call).(*types.Builtin); isB && bi.Name() == "append" && len(call.Args) == 2 && call.Ellipsis.IsValid() {
 				z, rec := allZero(call.Args[0])
@@ -2457,6 +2651,24 @@ func c16JudgeWriter(c *kit.Ctx, f *kit.Func, o *kit.Ob, payload *types.Var, writ
 				has = true
 			}
 			if id, ok := x.(*ast.Ident); ok {
+				for _, r := range c16Values(f, id) {
+					ast.Inspect(r, func(z ast.Node) bool {
+						if cc, ok := z.(*ast.CallExpr); ok && kit.CallIs(info, cc, qEncode) {
+							has = true
+						}
+						if id2, ok := z.(*ast.Ident); ok && id2 != id {
+							if r2 := c16Resolve(f, id2); r2 != ast.Expr(id2) {
+								ast.Inspect(r2, func(z2 ast.Node) bool {
+									if cc, ok := z2.(*ast.CallExpr); ok && kit.CallIs(info, cc, qEncode) {
+										has = true
+									}
+									return true
+								})
+							}
+						}
+						return true
+					})
+				}
 				if r := c16Resolve(f, id); r != ast.Expr(id) {
 					ast.Inspect(r, func(z ast.Node) bool {
 						if cc, ok := z.(*ast.CallExpr); ok && kit.CallIs(info, cc, qEncode) {
